@@ -35,7 +35,7 @@ from rtamt.syntax.node.ltl.constant import Constant
 from rtamt.syntax.node.ltl.previous import Previous
 
 from rtamt.exception.exception import RTAMTException
-from rtamt.pastifier.stl.horizon import StlHorizon
+from rtamt.pastifier.stl.horizon import StlHorizon, bounds_in_default_unit
 
 
 class StlPastifier(LtlPastifier, StlAstVisitor):
@@ -46,7 +46,7 @@ class StlPastifier(LtlPastifier, StlAstVisitor):
 
     def pastify(self, ast):
         self.ast = ast
-        h = StlHorizon()
+        h = StlHorizon(ast)
         horizons = dict()
         for spec in ast.specs:
             horizon = h.visit(spec, None)
@@ -81,8 +81,7 @@ class StlPastifier(LtlPastifier, StlAstVisitor):
         return node
 
     def visitTimedEventually(self, node, *args, **kwargs):
-        begin = node.begin
-        end = node.end
+        begin, end = bounds_in_default_unit(self.ast, node)
         horizon = args[0] - end
         node = self.visit(node.children[0], horizon)
         if end - begin > 0:
@@ -90,8 +89,7 @@ class StlPastifier(LtlPastifier, StlAstVisitor):
         return node
 
     def visitTimedAlways(self, node, *args, **kwargs):
-        begin = node.begin
-        end = node.end
+        begin, end = bounds_in_default_unit(self.ast, node)
         horizon = args[0] - end
         node = self.visit(node.children[0], horizon)
         if end - begin > 0:
@@ -99,8 +97,7 @@ class StlPastifier(LtlPastifier, StlAstVisitor):
         return node
 
     def visitTimedUntil(self, node, *args, **kwargs):
-        begin = node.begin
-        end = node.end
+        begin, end = bounds_in_default_unit(self.ast, node)
         horizon = args[0] - end
         child1_node = self.visit(node.children[0], horizon)
         child2_node = self.visit(node.children[1], horizon)
@@ -112,10 +109,11 @@ class StlPastifier(LtlPastifier, StlAstVisitor):
         remaining_horizon = args[0]
         horizon = remaining_horizon - node_horizon
         child_node = self.visit(node.children[0], node_horizon)
+        begin, end = bounds_in_default_unit(self.ast, node)
         if horizon > 0:
-            node = TimedOnce(child_node, Interval(node.begin + horizon, node.end + horizon))
+            node = TimedOnce(child_node, Interval(begin + horizon, end + horizon))
         else:
-            node = TimedOnce(child_node, Interval(node.begin, node.end))
+            node = TimedOnce(child_node, Interval(begin, end))
         return node
 
     def visitTimedHistorically(self, node, *args, **kwargs):
@@ -123,7 +121,8 @@ class StlPastifier(LtlPastifier, StlAstVisitor):
         remaining_horizon = args[0]
         horizon = remaining_horizon - node_horizon
         child_node = self.visit(node.children[0], node_horizon)
-        node = TimedHistorically(child_node, Interval(node.begin, node.end))
+        begin, end = bounds_in_default_unit(self.ast, node)
+        node = TimedHistorically(child_node, Interval(begin, end))
         if horizon > 0:
             node = TimedOnce(node, Interval(horizon, horizon))
         return node
@@ -134,7 +133,8 @@ class StlPastifier(LtlPastifier, StlAstVisitor):
         horizon = remaining_horizon - node_horizon
         child_node_1 = self.visit(node.children[0], node_horizon)
         child_node_2 = self.visit(node.children[1], node_horizon)
-        node = TimedSince(child_node_1, child_node_2, Interval(node.begin, node.end))
+        begin, end = bounds_in_default_unit(self.ast, node)
+        node = TimedSince(child_node_1, child_node_2, Interval(begin, end))
         if horizon > 0:
             node = TimedOnce(node, Interval(horizon, horizon))
         return node
@@ -143,8 +143,7 @@ class StlPastifier(LtlPastifier, StlAstVisitor):
         node_horizon = self.subformula_horizons[node]
         remaining_horizon = args[0]
         horizon = remaining_horizon - node_horizon
-        end = node.end
-        begin = node.begin
+        begin, end = bounds_in_default_unit(self.ast, node)
         child1_node = self.visit(node.children[0], node_horizon)
         child2_node = self.visit(node.children[1], node_horizon)
         node = TimedPrecedes(child1_node, child2_node, Interval(begin, end))
